@@ -46,6 +46,15 @@ namespace
     const char *Handle::zone_lo[2] = {nullptr, nullptr}, *Handle::zone_hi[2] = {nullptr, nullptr};
     long Handle::hits[2] = {0, 0};
     int val_of(const Handle &h) { return h.v; }
+    // the same idea as a union (a hand-written variant cell): a class type for the language, but not a "class" for type traits
+    union UCell
+    {
+        int v;
+        float as_float;
+        UCell(int x = 0) : v(x) {}
+        ~UCell() { Handle::note((const Handle *)(const void *)this); }
+    };
+    int val_of(const UCell &h) { return h.v; }
     // an element smaller and less aligned than a machine word (sizeof 2, alignof 2)
     struct Tiny
     {
@@ -57,6 +66,11 @@ namespace
     {
         static void zone(int, const void *, size_t) {}
         static long hits(int) { return -1; }
+    };
+    template <> struct Watch<UCell>
+    {
+        static void zone(int w, const void *mem, size_t bytes) { Handle::zone_lo[w] = (const char *)mem; Handle::zone_hi[w] = (const char *)mem + bytes; Handle::hits[w] = 0; }
+        static long hits(int w) { return Handle::hits[w]; }
     };
     template <> struct Watch<Handle>
     {
@@ -134,11 +148,11 @@ namespace
         auto truncate = [&](std::vector<int> &v) { if (v.size() > N) { v.resize(N); } };
         // (element types whose destructor is observable only) an operation that removes `gone` elements of container w ran
         // exactly `gone` destructors inside its element storage
-        auto expect_destroyed = [&](int w, long before, size_t gone, const char *what) {
+        auto expect_destroyed = [&](int w, long before, size_t gone, const char *what, bool at_least = false) {
             long h = Watch<E>::hits(w);
             if (h < 0) return;
             if (gone) probe("handle_elements_destroyed");
-            if (h - before != (long)gone)
+            if (at_least ? (h - before < (long)gone) : (h - before != (long)gone))
                 violate(std::string("C14/lifetime-destructor-count@") + what, "%s removed %zu elements of a static_vector<Handle,%zu>, but %ld destructors ran inside its element storage", what, gone, N, h - before);
         };
         auto check = [&](const char *when) {
@@ -250,9 +264,11 @@ namespace
 #ifndef C14_TWIN
                 size_t a = (size_t)mod(arg(o, 2), (int64_t)mx.size() + 1), b = (size_t)mod(arg(o, 3), (int64_t)mx.size() + 1);
                 if (a > b) std::swap(a, b);
+                long h0e = Watch<E>::hits(w);
                 R.guard = true;
                 x.erase(x.begin() + a, x.begin() + b);
                 R.guard = false;
+                expect_destroyed(w, h0e, b - a, "erase", true); // at least the removed ones (an implementation may also re-create the shifted tail)
                 mx.erase(mx.begin() + a, mx.begin() + b);
                 probe("erase");
 #endif
@@ -596,10 +612,11 @@ int main(int argc, char **argv)
     SVWorld<tracked::T> wt(PARTNAME "static_vector<Tracked>", true);
     SVWorld<Handle> wh(PARTNAME "static_vector<Handle>", false);
     SVWorld<Tiny> wy(PARTNAME "static_vector<2-byte element>", false);
+    SVWorld<UCell> wu(PARTNAME "static_vector<union element with a destructor>", false);
     SSWorld ws;
     Harness h;
     h.property = "C14";
-    h.worlds = {&wi, &wt, &ws, &wh, &wy};
+    h.worlds = {&wi, &wt, &ws, &wh, &wy, &wu};
 #ifdef C14_TWIN
     h.real = {"igris/container/std_portable.h (static_vector, static_string twins)"};
 #else
